@@ -356,6 +356,9 @@ def dim_dependent(ctx, rule="R14.5"):
 
 
 def run(ctx):
+    from ..small import none_default_rule
+
+    none_default_rule(ctx, "R14.7", ["covmodel/"], 20)
     check_after_write(ctx)
     normalised_writes(ctx)
     comparator_tables(ctx)
